@@ -6,6 +6,8 @@ use crate::{
 use crate::parser::expression::{parse_call_like, parse_expression};
 
 pub fn tokenize_inline_content(content: &str) -> Result<Vec<Node>, CompilerError> {
+    // Inline conditionals and sequences come back here for their branches.
+    let _level = crate::nesting::enter()?;
     let mut nodes = Vec::new();
     let mut text = String::new();
     let mut chars = content.char_indices().peekable();
